@@ -2,6 +2,7 @@ import ClaripyProofs.Lemmas.FP.FoldD2
 import ClaripyProofs.Lemmas.FP.RoundModes
 import ClaripyProofs.Lemmas.FP.FoldF
 import ClaripyProofs.Lemmas.FP.IntConv
+import ClaripyProofs.Lemmas.FP.MulF
 /-!
 # C02 — IEEE-754 meaning of floating-point folding in every rounding mode
 
@@ -189,12 +190,21 @@ theorem cancel_fptofp_fptobv (f : Fmt) (x p : Nat) (hx : x < 2 ^ f.width)
 /-- full statement for FLOAT -/
 def fold_float_rne_full : Prop := ∀ a b : Nat, fpAdd F .RNE a b = add F .RNE a b ∧ fpMul F .RNE a b = mul F .RNE a b
 
-theorem fold_float_rne_partial (hadd : DoubleRoundingInnocuous add) (hmul : DoubleRoundingInnocuous mul) :
-    fold_float_rne_full := by
+/-- FLOAT MULTIPLICATION, no hypothesis: the binary64 product of two binary32 values is exact (≤ 48 significant bits, exponent
+inside the binary64 range), so the fold rounds once — fold = specification under RNE for every pair of operands -/
+theorem fold_mul_float_rne (a b : Nat) : fpMul F .RNE a b = mul F .RNE a b := fpMul_F .RNE a b
+
+/-- rounding depends only on the rational value of the input (a common factor of `sc` and `den` cancels) -/
+theorem round_scale_invariant (f : Fmt) (rm : RM) (neg : Bool) (sc den k : Nat) (hden : 0 < den) (hk : 0 < k) :
+    roundScaled f rm neg (sc * k) (den * k) = roundScaled f rm neg sc den := roundScaled_scale f rm neg sc den k hden hk
+
+/-- FLOAT addition still needs the innocuous-double-rounding hypothesis (the binary64 sum of two binary32 values is not exact
+in general); multiplication does not -/
+theorem fold_float_rne_partial (hadd : DoubleRoundingInnocuous add) : fold_float_rne_full := by
   intro a b
   constructor
   · have := hadd a b; unfold fpAdd pyAdd lift lower; simpa using this
-  · have := hmul a b; unfold fpMul pyMul lift lower; simpa using this
+  · exact fold_mul_float_rne a b
 
 /-! ## the statement is false outside RNE (open findings) — witnesses, replayed on the real code -/
 
